@@ -6,6 +6,7 @@ from .. import wowm
 from ..common import REPO, repo_files
 from ..containers import state
 
+n_decoded = 0
 EXPLANATION = (
     "Every wowm block embedded in a generated Rust doc comment and in every documentation page is parsed back with the "
     "independent wowm parser and compared with the source object its link names (file:line): kind, name, opcode, base type, "
@@ -97,6 +98,10 @@ class Index:
         self.by_pos = {}
         for o in model.objects:
             self.by_pos.setdefault((o.ast.file, o.ast.line), o.ast)
+        self.model = model
+        self.obj_of = {}
+        for o in model.objects:
+            self.obj_of.setdefault(id(o.ast), o)
         self.tests = {}
         for t in model.tests:
             self.tests.setdefault(t.name, []).append(t)
@@ -121,7 +126,70 @@ def compare_block(ctx, rule, key, text, file, line, idx, where_file, where_line)
     return src
 
 
+def example_annotation_problem(idx, cur, data, rows, rel, compare_bytes=True):
+    """-> None (nothing to report / not decodable here) or (key suffix, message)"""
+    from .. import refdecode as R
+    obj = idx.obj_of.get(id(cur))
+    if obj is None:
+        return None
+    model = idx.model
+    if obj.world_versions:
+        v = obj.world_versions[0]
+        lookup = lambda name: model.lookup_world(name, v)  # noqa
+    else:
+        v = obj.login_versions[0]
+        lookup = lambda name: model.lookup_login(name, v)  # noqa
+    # annotated groups: (bytes on the line, member name of the comment)
+    ann = []
+    for row in rows:
+        code, _, cm = row.partition("//")
+        toks = [int(t) for t in code.replace(",", " ").split() if t.lstrip("-").isdigit()]
+        last = cm.rpartition("//")[2]  # a line may carry a second comment after bytes that slipped into the first one
+        nm = last.split(":")[0].strip() if last.strip() else None
+        ann.append((toks, nm, cm.strip()))
+    hdr = 0
+    for toks, nm, cm in ann:
+        if cm == "size" or cm.startswith("opcode ("):
+            hdr += len(toks)
+        else:
+            break
+    try:
+        rl = wowm.RefLayouts(model, lookup)
+        items = R.prepare(rl, rl.container(cur))
+        out = []
+        try:
+            end = R.decode_seq(items, data, hdr, {}, out)
+            complete = True
+        except R.Opaque:
+            end, complete = None, False
+        except R.Short:
+            return ("|decode", f"{rel}: example of {cur.name}: the bytes end before the members the definition requires for these values")
+    except wowm.WowmError:
+        return None
+    if complete and end != len(data):
+        return ("|decode", f"{rel}: example of {cur.name}: decoding the {len(data)} bytes along the definition ends at byte {end}")
+    names = [(nm, toks) for toks, nm, cm in ann if nm]
+    pos = 0
+    for (mname, start, stop, kind) in out:
+        if kind == "struct":
+            continue  # struct members are annotated through their fields (`Type.field: ..`), not by their own name
+        found = None
+        for q in range(pos, len(names)):
+            if names[q][0] == mname:
+                found = q
+                break
+        if found is None:
+            return (f"|missing|{mname}", f"{rel}: example of {cur.name}: member `{mname}` is present for these bytes (bytes {start}..{stop} by the definition) but the example "
+                    f"does not annotate it{' after `' + names[pos - 1][0] + '`' if pos else ''}: the annotation follows a different branch than the bytes")
+        if compare_bytes and kind in ("int", "float", "bool", "enum", "flag", "guid", "datetime") and names[found][1] != data[start:stop]:
+            return (f"|bytes|{mname}", f"{rel}: example of {cur.name}: `{mname}` is annotated on the bytes {names[found][1]} but the definition places it on bytes {start}..{stop} = {data[start:stop]}")
+        pos = found + 1
+    return None
+
+
 def check_pages(ctx, idx):
+    global n_decoded
+    n_decoded = 0
     n_blocks = n_tables = n_examples = 0
     pages = sorted(f for f in os.listdir(DOCS) if f.endswith(".md"))
     for fn in pages:
@@ -217,6 +285,20 @@ def check_pages(ctx, idx):
                 elif data not in raw_sets:
                     ctx.violate("doc.examples", f"page|{fn}|{cur.name}|{cur.line}|ex{cur_examples}|bytes",
                                 f"{rel}: example {cur_examples + 1} of {cur.name}: the annotated byte groups ({len(data)} bytes) do not concatenate to the bytes of any test of that definition in {cur.file}", rel, i + 1)
+                # the annotations against a decoding of the bytes along the definition: every member that is present for these bytes
+                # must be annotated, in order, and fixed-width scalars must sit on their own bytes
+                if not compressed:
+                    n_decoded += 1
+                    kx = f"page|{fn}|{cur.name}|{cur.line}|ex{cur_examples}"
+                    if data in raw_sets:
+                        pr = example_annotation_problem(idx, cur, data, lines[j + 1:k], rel)
+                    else:
+                        # the byte groups are already reported as not matching a test: still require that the annotated member names are
+                        # those present for the bytes of at least one test of the definition
+                        prs = [example_annotation_problem(idx, cur, b, lines[j + 1:k], rel, compare_bytes=False) for b in raw_sets]
+                        pr = None if (not prs or any(x is None for x in prs)) else prs[0]
+                    if pr:
+                        ctx.violate("doc.examples", kx + pr[0], pr[1], rel, i + 1)
                 # top-level field comments follow definition order
                 order = {m_.name: n for n, m_ in enumerate(flat_members(cur.members, [])) if True}
                 seen = -1
@@ -275,7 +357,7 @@ def run(ctx):
     rs = check_rust_comments(ctx, idx)
     ctx.rule("doc.parseback", blocks + rs, floor=3777, note=f"{blocks} wowm blocks in {pages} doc pages + {rs} Rust doc comments parsed back and compared with the linked source object")
     ctx.rule("doc.table", tables, floor=1500, note="body tables: member names in definition order, size/endianness cells of fixed-width built-ins")
-    ctx.rule("doc.examples", examples, floor=170, note="examples: byte groups concatenate to the wowm test bytes; top-level field comments in definition order")
+    ctx.rule("doc.examples", examples, floor=170, note=f"examples: byte groups concatenate to the wowm test bytes; {n_decoded} examples decoded along the definition: every present member annotated in order, fixed-width scalars on their own bytes")
     ctx.analysed.update({"programs": blocks + rs, "pages": pages})
     ctx.assume("prose, links and per-member comments are not compared; tags blocks are not part of the embedded definition")
     return "translation_validation", EXPLANATION, {}
